@@ -323,3 +323,38 @@ Qed.
 
 Theorem r_match_spec s c t v : r_match s c t v = true <-> cls s = c /\ typ s = t /\ cov s = v.
 Proof. unfold r_match. rewrite !andb_true_iff, !Z.eqb_eq. tauto. Qed.
+
+(* ---------- == on rdatasets is an equivalence relation ---------- *)
+
+Lemma r_eq_refl a : wf a -> r_eq a a = true.
+Proof.
+  intros Ha. apply (r_eq_spec a a Ha Ha). repeat split; auto.
+  intros _ _. apply name_eqb_spec. reflexivity.
+Qed.
+
+Lemma r_eq_sym a b : wf a -> wf b -> r_eq a b = r_eq b a.
+Proof.
+  intros Ha Hb.
+  assert (H : forall x y, wf x -> wf y -> r_eq x y = true -> r_eq y x = true).
+  { intros x y Hx Hy E. apply (r_eq_spec x y Hx Hy) in E as (A & B & C & D & F).
+    apply (r_eq_spec y x Hy Hx). repeat split; auto.
+    intros K1 K2. specialize (D K2 K1). apply name_eqb_spec in D. apply name_eqb_spec. auto. }
+  destruct (r_eq a b) eqn:E1, (r_eq b a) eqn:E2; try reflexivity.
+  - rewrite (H a b Ha Hb E1) in E2. discriminate.
+  - rewrite (H b a Hb Ha E2) in E1. discriminate.
+Qed.
+
+Lemma r_eq_trans a b c :
+  wf a -> wf b -> wf c -> kd b = KRR \/ (kd a <> KRR \/ kd c <> KRR) ->
+  r_eq a b = true -> r_eq b c = true -> r_eq a c = true.
+Proof.
+  intros Ha Hb Hc Hk E1 E2.
+  apply (r_eq_spec a b Ha Hb) in E1 as (A1 & B1 & C1 & D1 & F1).
+  apply (r_eq_spec b c Hb Hc) in E2 as (A2 & B2 & C2 & D2 & F2).
+  apply (r_eq_spec a c Ha Hc).
+  split; [congruence|]. split; [congruence|]. split; [congruence|]. split.
+  - intros K1 K3. destruct Hk as [K2|[K|K]]; try contradiction.
+    specialize (D1 K1 K2). specialize (D2 K2 K3).
+    apply name_eqb_spec in D1, D2. apply name_eqb_spec. congruence.
+  - intros x. rewrite F1. apply F2.
+Qed.
